@@ -4,6 +4,7 @@
    Instances (CapInv.v): the capacity clause cell_cap, and "colours in range" (screen_attrs_ok).
    Same structure as WfGrid.v / WfInv.v, but no side conditions on the characters are needed. *)
 Require Import Tac ListN Utf8 Width Attrs Cell Row Grid Screen Vte Perform Parser.
+Require Import Chunking.
 Require Import RowInv GridInv TextInv ScreenInv WfGrid WfInv.
 Open Scope N_scope.
 
@@ -702,7 +703,7 @@ Qed.
 (* ---- the parser API ---- *)
 Lemma process_P p bs q : process p bs = Ok q -> screenP (scr p) -> screenP (scr q).
 Proof.
-  unfold process. intros E H. destruct (advance (vt p) bs) as [v acts].
+  rewrite process_unfold. intros E H. destruct (advance (vt p) _) as [v acts].
   binv E as p1 E1. destruct p1 as [s evs]. inv E. cbn [scr]. eapply perform_all_P; eauto.
 Qed.
 
